@@ -1108,7 +1108,14 @@ class Normalizer:
                     v = st.targets[0].id
                     if len(asg.get(v, [])) != 1 or v in self.params:
                         continue
-                    if not is_pure(st.value) or isinstance(st.value, (ast.ListComp, ast.DictComp, ast.SetComp, ast.GeneratorExp, ast.List, ast.Set)):
+                    single_sp = False
+                    if not is_pure(st.value) and not isinstance(st.value, (ast.ListComp, ast.DictComp, ast.SetComp, ast.GeneratorExp, ast.List, ast.Set, ast.Dict)) \
+                            and all(is_pure(c) or state_preserving_call(c) for c in ast.walk(st.value) if isinstance(c, ast.Call)) \
+                            and not any(isinstance(x, (ast.Yield, ast.YieldFrom, ast.Await, ast.NamedExpr, ast.Lambda)) for x in ast.walk(st.value)):
+                        # a value computed by state-preserving calls (np.*, constructors): evaluated once, so it may move to its
+                        # single use when that use is executed exactly once per execution of the definition (same loop nest)
+                        single_sp = True
+                    if (not is_pure(st.value) and not single_sp) or isinstance(st.value, (ast.ListComp, ast.DictComp, ast.SetComp, ast.GeneratorExp, ast.List, ast.Set)):
                         continue        # containers have identity: not substituted
                     if isinstance(st.value, ast.Dict) and self.container_mutated_or_escapes(fn, v):
                         continue
@@ -1120,6 +1127,16 @@ class Normalizer:
                     uses = [n for n in free_names(fn) if n.id == v and isinstance(n.ctx, ast.Load)]
                     if not uses or any(id(u) not in node_of for u in uses):
                         continue
+                    if single_sp:
+                        if len(uses) != 1:
+                            continue
+                        # same loop nest: every loop that contains the use contains the definition
+                        loops_u = [x for x in ast.walk(fn) if isinstance(x, (ast.For, ast.While, ast.ListComp, ast.GeneratorExp, ast.SetComp, ast.DictComp, ast.Lambda)) and any(y is uses[0] for y in ast.walk(x))]
+                        if any(not any(y is st for y in ast.walk(x)) for x in loops_u):
+                            continue
+                        # the use must not sit in a conditionally evaluated position (and/or, conditional expression)
+                        if any(isinstance(x, (ast.BoolOp, ast.IfExp)) and any(y is uses[0] for y in ast.walk(x)) for x in ast.walk(fn)):
+                            continue
                     if len(uses) > 1 and not isinstance(st.value, (ast.Name, ast.Constant, ast.Attribute, ast.Dict)) and cost(st.value) > 60:
                         continue
                     names, attrs = reads(st.value)
